@@ -387,6 +387,9 @@ func (i *interp) equalsT(t types.Type, x, y value) *term.T {
 	case array:
 		ya := y.(array)
 		et := t.Underlying().(*types.Array).Elem()
+		if wa, wb := wholeOf([]value(x)), wholeOf([]value(ya)); wa != nil && wb != nil && wa.W == wb.W {
+			return c.EqT(wa, wb) // both are the bytes of one wide term each (digests)
+		}
 		r := c.True()
 		for k := range x {
 			r = c.AndB(r, i.equalsT(et, x[k], ya[k]))
